@@ -502,14 +502,17 @@ var errDetectedBrokenConfigStr = "error: more than one server was configured as 
 func (h *commithook) Execute(ctx context.Context, ds datas.Dataset, db *doltdb.DoltDB) (func(context.Context) error, error) {
 	lgr := h.logger()
 	lgr.Tracef("cluster/commithook: Execute called post commit")
+	h.mu.Lock()
+	defer h.mu.Unlock()
+	lgr = h.logger()
+	// Read the root while holding the lock: Execute runs concurrently for commits on
+	// different branches, and a root read before the lock can be older than the one
+	// a concurrent Execute has already recorded in nextHead.
 	root, err := db.NomsRoot(ctx)
 	if err != nil {
 		lgr.Errorf("cluster/commithook: Execute: error retrieving local database root: %v", err)
 		return nil, err
 	}
-	h.mu.Lock()
-	defer h.mu.Unlock()
-	lgr = h.logger()
 	if h.role != RolePrimary {
 		lgr.Warnf("cluster/commithook received commit callback for a commit on %s, but we are not role primary; not replicating the commit, which is likely to be lost.", ds.ID())
 		return nil, nil
